@@ -6,4 +6,4 @@ CONSTANTS
   Predict = TRUE
   MaxMut = 0
   Sugars = {"go"}
-INVARIANTS Export Terminates StoreOK Predicted
+INVARIANTS Export Terminates StoreOK Predicted WellTypedInv
